@@ -19,15 +19,21 @@ func init() {
 			"C20-FLOAT the bit size given to AppendFloat agrees with the kind of the value. NOT covered: equality of scalar text with encoding/json (escapes, float formatting beyond bit size), embedded structs, containers longer than the unrolling (the separators' conditions are additionally compared with the loop guard).",
 		Assume:  []string{"strconv.Append* emit a JSON number for finite values", "excluded as in the property: interface fields, pointers to scalars, time.Time, func/chan"},
 		Trusted: []string{"go/types", "go/ssa"},
-		Run:     func(c *Ctx) { runC20(c); runC20Extra(c); runC20Reentrant(c); runExemptType(c, "C20-EXEMPT"); base(c, "STATE") },
+		Run: func(c *Ctx) {
+			runC20(c)
+			runC20Extra(c)
+			runC20Reentrant(c)
+			runExemptType(c, "C20-EXEMPT")
+			base(c, "STATE")
+		},
 	})
 }
 
 type dumpTrace struct {
-	tokens string
-	kind   uint32 // kind set of the value when the function returned
-	t      *Trace
-	recs   []Event
+	tokens    string
+	kind      uint32 // kind set of the value when the function returned
+	t         *Trace
+	recs      []Event
 	floatBits []int64
 }
 
